@@ -136,6 +136,8 @@ def run_twin(case, compare_sections=('params', 'rg', 'flags', 'grads'), probe_fo
         nonlocal last_fault, fault_since_state_op
         torch.manual_seed(torch_seed(run_seed, 'inject', idx, sub))
         bump('fault_' + op['op'] + ('_mid_step' if sub != 0 else ''))
+        if sub != 0 and op.get('at', 'mid') != 'mid':
+            bump('fault_interrupt_at_' + op['at'])
         if len({m_.training for m_ in S.model.modules()}) > 1:
             bump('fault_with_model_in_mixed_training_status')
         last_fault = op['op'] + (':mid' if sub != 0 else '')
@@ -231,8 +233,18 @@ def run_twin(case, compare_sections=('params', 'rg', 'flags', 'grads'), probe_fo
         mids = op.get('mid') or []
 
         def side_hook(point, _mids=mids, _idx=idx):
+            # in-flight points of a training step: 'pre_forward' (gradients zeroed, pass not started), 'mid' (between
+            # the forward pass and the cost read - the default), 'pre_backward' (loss and cost graph built, not yet
+            # back-propagated)
             for j, mo in enumerate(_mids):
-                inject(mo, _idx, j + 1)
+                if mo.get('at', 'mid') == point:
+                    # the scheduler owns the torch RNG: the stream the rest of the step sees is the one the reference
+                    # saw (RNG consumption by an observer is not an observable difference, DESIGN 2 C18)
+                    st_ = torch.get_rng_state()
+                    try:
+                        inject(mo, _idx, j + 1)
+                    finally:
+                        torch.set_rng_state(st_)
 
         def run(rep, hook):
             try:
